@@ -11,6 +11,8 @@ val app : 'a1 list -> 'a1 list -> 'a1 list
 
 val rev : 'a1 list -> 'a1 list
 
+val flat_map : ('a1 -> 'a2 list) -> 'a1 list -> 'a2 list
+
 val fold_left : ('a1 -> 'a2 -> 'a1) -> 'a2 list -> 'a1 -> 'a1
 
 val existsb : ('a1 -> bool) -> 'a1 list -> bool
